@@ -5,7 +5,7 @@ import json
 import os
 import sys
 
-sys.path.insert(0, "/repo/src")
+sys.path.insert(0, os.environ.get("VERIF_REPO", "/repo") + "/src")
 os.environ.setdefault("JAX_PLATFORMS", "cpu")
 os.environ.setdefault("TF_CPP_MIN_LOG_LEVEL", "3")
 import warnings
